@@ -97,7 +97,10 @@ impl Interp {
                 self.insts.insert(b, c);
                 let n = self.news[&a].clone();
                 self.news.insert(b, n);
-                self.last.remove(&b); // a copy has produced no output of its own yet
+                match self.last.get(&a).cloned() {
+                    Some(l) => self.last.insert(b, l),
+                    None => self.last.remove(&b),
+                };
                 "ok".to_string()
             }
             "gutsrt" => {
@@ -106,7 +109,10 @@ impl Interp {
                 self.insts.insert(b, c);
                 let n = self.news[&a].clone();
                 self.news.insert(b, n);
-                self.last.remove(&b); // a copy has produced no output of its own yet
+                match self.last.get(&a).cloned() {
+                    Some(l) => self.last.insert(b, l),
+                    None => self.last.remove(&b),
+                };
                 "ok".to_string()
             }
             "fresh" => {
